@@ -305,6 +305,13 @@ func registerEnv(ip *Interp) {
 		if !ok {
 			panic(unsupported("packages.Load without a provided result"))
 		}
+		if pv := v.(Iface); pv.T != nil {
+			if _, isFunc := pv.T.Underlying().(*types.Signature); isFunc {
+				// a builder func(*packages.Config) []*packages.Package: lets the harness
+				// place its files in the FileSet the caller configured
+				return Tuple{ip.call(fr, pv.V, []Value{a[0]}), Iface{}}
+			}
+		}
 		return Tuple{v.(Iface).V, Iface{}}
 	})
 	// golang.org/x/mod/sumdb/dirhash over the filesystem model, computed exactly as
